@@ -89,6 +89,16 @@ func runVersionLock(c vlCase, classes map[string]bool) string {
 		if !legacy {
 			want, why := refRefuse(ver, forks, s.Version)
 			got := err != nil
+			if got && !want && Open("C19/fork-below-start") && si >= 1 {
+				// registered finding, exactly: a false refusal at a later start when a fork with a real
+				// minimum lies at or below the first synced height - 1. Any other disagreement is new.
+				for _, f := range c.Forks {
+					if f.Height <= c.Start && f.MinVer > -1 {
+						classes["refused(registered finding fork-below-start)"] = true
+						return ""
+					}
+				}
+			}
 			if got != want {
 				if want {
 					return fmt.Sprintf("session %d (build %d) was accepted but must be refused: %s; case=%+v", si, s.Version, why, c)
@@ -180,10 +190,7 @@ func genVLCase(t *rapid.T) vlCase {
 		c.Sessions = append(c.Sessions, s)
 	}
 	nf := rapid.IntRange(0, 3).Draw(t, "nforks")
-	lo := -3
-	if Open("C19/fork-below-start") {
-		lo = 1 // keep forks above the first synced height - 1 (registered finding); counted by the caller
-	}
+	lo := -3 // forks below the first synced height are kept: the registered finding is classified by its exact symptom
 	for i := 0; i < nf; i++ {
 		c.Forks = append(c.Forks, Fork{Height: uint32(int(c.Start) + rapid.IntRange(lo, total+3).Draw(t, "forkOff")),
 			MinVer: rapid.IntRange(0, 4).Draw(t, "minver")})
@@ -221,14 +228,11 @@ func TestC19(t *testing.T) {
 	}
 	RunProbes(st, "C19")
 	run := func(c vlCase) string {
-		for _, k := range vlTriggers(c) {
-			if Open(k) {
-				st.Exclude(k)
-				return ""
-			}
-		}
 		classes := map[string]bool{}
 		msg := runVersionLock(c, classes)
+		if classes["refused(registered finding fork-below-start)"] {
+			st.Exclude("C19/fork-below-start")
+		}
 		nt := ""
 		if vlNonTrivial(c) {
 			nt = fmt.Sprintf("%+v", c)
@@ -249,9 +253,6 @@ func TestC19(t *testing.T) {
 	t.Run("random", func(t *testing.T) {
 		rapid.Check(t, func(rt *rapid.T) {
 			c := genVLCase(rt)
-			if Open("C19/fork-below-start") {
-				st.Exclude("C19/fork-below-start")
-			}
 			if msg := run(c); msg != "" {
 				fail(st, rt, msg, c)
 			}
